@@ -26,6 +26,8 @@ def split_line(l):
 
 
 def compare(impl, model):
+    if model == "unpredicted":
+        return True
     a, ka = split_line(impl)
     b, kb = split_line(model)
     if a != b:
@@ -165,6 +167,108 @@ def sweep_oracle(i, f, r):
     return fails
 
 
+def kvs(r):
+    return dict(p.split("=", 1) for p in r.split(" ") if "=" in p)
+
+
+def bk_chain(bk, k):
+    chain = []
+    while k is not None and k in bk and not bk[k]["gone"]:
+        chain.append(k)
+        if bk[k]["full"]:
+            return list(reversed(chain))
+        k = bk[k]["parent"]
+    return None
+
+
+def pitr_choice(bk, t):
+    """(last backup of the chain PITR selects, ambiguous?)"""
+    live = [k for k in bk if not bk[k]["gone"]]
+    fulls = [k for k in live if bk[k]["full"] and bk[k]["ts"] <= t]
+    if not fulls:
+        return None, False
+    mt = max(bk[k]["ts"] for k in fulls)
+    amb = sum(1 for k in fulls if bk[k]["ts"] == mt) > 1
+    cur = [k for k in fulls if bk[k]["ts"] == mt][0]
+    chain = [cur]
+    while True:
+        kids = [k for k in live if not bk[k]["full"] and bk[k]["parent"] == cur and bk[k]["ts"] <= t]
+        if not kids:
+            break
+        mt = max(bk[k]["ts"] for k in kids)
+        amb = amb or sum(1 for k in kids if bk[k]["ts"] == mt) > 1
+        cur = [k for k in kids if bk[k]["ts"] == mt][0]
+        chain.append(cur)
+    return chain, amb
+
+
+def backup_oracle(i, op, f, r, exp, bk):
+    """C12: (i) restoring a verified backup/chain/PITR target into an empty (or confirmed-clear) directory yields exactly
+    the collection as of that backup; (ii) a chain with an altered archive or metadata is refused with the target
+    untouched - or, when the alteration is immaterial, still yields exactly that collection; (iii) a non-empty target is
+    never cleared without confirmation; (iv) pruning keeps the ancestors of whatever it keeps."""
+    fails = []
+    kv = kvs(r)
+    if op in ("bk_full", "bk_incr"):
+        if r.startswith("ok "):
+            k = int(kv["b"])
+            bk[k] = {"exp": show_exp(exp), "parent": None if kv["parent"] == "-" else int(kv["parent"]), "ts": int(kv["ts"]),
+                     "full": kv["type"] == "full", "gone": False, "damaged": None}
+    elif op == "bk_damage":
+        if r.startswith("ok ") and int(f["b"]) in bk:
+            bk[int(f["b"])]["damaged"] = "%s.%s" % (f.get("what"), kv.get("field", "?"))
+    elif op in ("bk_restore", "bk_pitr"):
+        dirty, clear = f.get("target") == "dirty", f.get("clear") == "1"
+        if op == "bk_restore":
+            chain, amb = bk_chain(bk, int(f["b"])), False
+        else:
+            chain, amb = pitr_choice(bk, int(f["ts"]))
+        if amb:
+            return fails
+        junk = kv.get("junk", "-")
+        ok = r.startswith("ok ")
+        if dirty and not clear and (junk != "kept" or ok):
+            fails.append(("c12-cleared-without-confirmation", i, "`%s`: non-empty target and no confirmation, result `%s`" % (op, r[:120])))
+            return fails
+        if not ok and (kv.get("touched", "0") != "0" or junk == "gone"):
+            fails.append(("c12-refused-but-touched", i, "`%s` failed (%s) after touching the target directory" % (op, r[:120])))
+            return fails
+        if chain is None:
+            if ok:
+                fails.append(("c12-restored-without-chain", i, "`%s` succeeded although the chain is incomplete: %s" % (op, r[:120])))
+            return fails
+        want = bk[chain[-1]]["exp"]
+        dmg = [bk[k]["damaged"] for k in chain if bk[k]["damaged"]]
+        rec = r.split(" rec=", 1)[1].split(" junk=")[0] if ok else None
+        if dmg:
+            if ok and rec != want:
+                what = dmg[0]
+                kind = "c12-archive-structure-unchecked" if what.startswith("tar.") and what.split(".")[1] in ("name", "namelen", "count", "datalen", "past-end") \
+                    else "c12-metadata-altered-accepted" if what.startswith("json") else "c12-altered-accepted"
+                fails.append((kind, i, "chain %s has an altered member (%s) but `%s` proceeds and the restored directory gives %s, "
+                              "collection at backup time %s" % (chain, what, op, rec[:160], want[:160])))
+            return fails
+        if not ok:
+            if not (dirty and not clear):
+                fails.append(("c12-verified-restore-fails", i, "`%s` of the verified chain %s fails: %s" % (op, chain, r[:120])))
+        elif rec != want:
+            fails.append(("c12-restore-differs", i, "`%s` of the verified chain %s yields %s, collection when backup %d was taken: %s" % (
+                op, chain, rec[:200], chain[-1], want[:200])))
+    elif op == "bk_prune":
+        if r.startswith("deleted="):
+            dels = [] if kv["deleted"] == "-" else [int(x) for x in kv["deleted"].split(",")]
+            for k in dels:
+                if k in bk:
+                    bk[k]["gone"] = True
+            for k in bk:
+                if not bk[k]["gone"]:
+                    p = bk[k]["parent"]
+                    if p is not None and p in bk and bk[p]["gone"]:
+                        fails.append(("c12-prune-orphans", i, "`%s` deleted backup %d, the parent of retained backup %d" % (" ".join("%s=%s" % x for x in f.items()), p, k)))
+                        break
+    return fails
+
+
 def oracle(raw, ann, res):
     """Property oracles evaluated on the implementation's outputs only.
        c02: census after a restart == fold of the acknowledged ops (== live state before it)
@@ -173,9 +277,13 @@ def oracle(raw, ann, res):
     fails = []
     exp = {}
     down = False
+    bk = {}          # backup index -> dict(exp=collection when taken, parent, ts, full, gone, damaged=field or None)
     for i, (a, r) in enumerate(zip(ann, res)):
         op, f = fields(a)
         out, kv = split_line(r)
+        if op.startswith("bk_") or op == "tick":
+            fails += backup_oracle(i, op, f, r, exp, bk)
+            continue
         if out.startswith("panic"):
             fails.append(("panic", i, out)); continue
         before = dict(exp)
